@@ -838,6 +838,26 @@ func c02Timestamp(c *Ctx, r *Report) {
 			r.check(okSign, "C02.R5", k, posOf(c, st), "sign octet '+'/'-' selected by the sign of the UTC offset", why)
 			return
 		}
+		// which calendar component the two digits are taken from (TS 32.298 TimeStamp: YYMMDDhhmmssShhmm);
+		// reported only when the component can be named and is the wrong one
+		if want := c02TimeComponents[idx]; want != "" {
+			hi, lo := c02DigitsOf(st.Val)
+			for _, d := range []struct{ got, digit string }{{hi.comp, hi.digit}, {lo.comp, lo.digit}} {
+				if d.got == "" {
+					continue
+				}
+				got := d.got
+				if got == "year%100" || (got == "year" && d.digit == "units") {
+					got = "year"
+				}
+				if got != want {
+					r.viol("C02.R5", k+"|component", posOf(c, st), fmt.Sprintf("octet %d of the time stamp has to hold the %s, but its %s digit is taken from the %s: the record opening time does not denote the instant of creation (for zone offsets this shows only in zones that are not a whole number of hours from UTC)", idx, want, d.digit, d.got))
+				}
+			}
+			if hi.comp != "" && lo.comp != "" && (hi.digit != "tens" || lo.digit != "units") {
+				r.viol("C02.R5", k+"|digit order", posOf(c, st), fmt.Sprintf("octet %d holds the %s digit in its high nibble and the %s digit in its low nibble: BCD wants tens then units", idx, hi.digit, lo.digit))
+			}
+		}
 		nb := nibbles(st.Val, st, 0)
 		ok9 := nb.ok && nb.hi.within(0, 9) && nb.lo.within(0, 9)
 		detail := "both nibbles within 0..9"
@@ -1399,4 +1419,169 @@ func sameLocalReads(x, y ssa.Value) bool {
 		}
 	}
 	return true
+}
+
+// ---- which component a BCD digit of the time stamp is taken from
+
+var c02TimeComponents = map[int64]string{0: "year", 1: "month", 2: "day", 3: "hour", 4: "minute", 5: "second", 7: "zone-hour", 8: "zone-minute"}
+
+type c02Digit struct{ comp, digit string }
+
+// c02DigitsOf: octet = hi<<4 | lo: the component and the digit (tens/units) of each nibble, as
+// far as the expression names them.
+func c02DigitsOf(v ssa.Value) (hi, lo c02Digit) {
+	v = stripConvAll(v)
+	bo, ok := v.(*ssa.BinOp)
+	if !ok || (bo.Op != token.OR && bo.Op != token.ADD) {
+		return
+	}
+	for _, pair := range [][2]ssa.Value{{bo.X, bo.Y}, {bo.Y, bo.X}} {
+		sh, ok := stripConvAll(pair[0]).(*ssa.BinOp)
+		if !ok {
+			continue
+		}
+		if k, okk := constInt(sh.Y); okk && ((sh.Op == token.SHL && k == 4) || (sh.Op == token.MUL && k == 16)) {
+			return c02Digit1(sh.X), c02Digit1(pair[1])
+		}
+	}
+	return
+}
+
+func stripConvAll(v ssa.Value) ssa.Value {
+	for i := 0; i < 8; i++ {
+		switch x := v.(type) {
+		case *ssa.Convert:
+			v = x.X
+		case *ssa.ChangeType:
+			v = x.X
+		default:
+			return resolveMem(v)
+		}
+	}
+	return v
+}
+
+func c02Digit1(v ssa.Value) c02Digit {
+	v = stripConvAll(v)
+	bo, ok := v.(*ssa.BinOp)
+	if !ok {
+		return c02Digit{}
+	}
+	k, isK := constInt(bo.Y)
+	if !isK || k != 10 {
+		return c02Digit{}
+	}
+	switch bo.Op {
+	case token.QUO:
+		return c02Digit{c02Component(bo.X), "tens"}
+	case token.REM:
+		return c02Digit{c02Component(bo.X), "units"}
+	}
+	return c02Digit{}
+}
+
+func c02Component(v ssa.Value) string {
+	v = stripConvAll(v)
+	isZone := func(v ssa.Value) bool { // the zone offset or its absolute value
+		seen := map[ssa.Value]bool{}
+		var visit func(v ssa.Value, d int) bool
+		visit = func(v ssa.Value, d int) bool {
+			v = stripConvAll(v)
+			if d > 6 {
+				return false
+			}
+			if _, isPhi := v.(*ssa.Phi); isPhi {
+				if seen[v] {
+					return true // round a loop: decided by the other edges
+				}
+				seen[v] = true
+			}
+			switch x := v.(type) {
+			case *ssa.Extract:
+				if call, ok := x.Tuple.(*ssa.Call); ok && x.Index == 1 && isFunc(calleeObj(&call.Call), "time", "Time.Zone") {
+					return true
+				}
+			case *ssa.Phi:
+				for _, e := range x.Edges {
+					if !visit(e, d+1) {
+						return false
+					}
+				}
+				return len(x.Edges) > 0
+			case *ssa.UnOp:
+				if x.Op == token.SUB {
+					return visit(x.X, d+1)
+				}
+			case *ssa.BinOp:
+				if x.Op == token.SUB {
+					if k, ok := constInt(x.X); ok && k == 0 {
+						return visit(x.Y, d+1)
+					}
+				}
+			}
+			return false
+		}
+		return visit(v, 0)
+	}
+	switch x := v.(type) {
+	case *ssa.Call:
+		if obj := calleeObj(&x.Call); obj != nil && obj.Pkg() != nil && obj.Pkg().Path() == "time" {
+			switch funcLocalName(obj) {
+			case "Time.Year":
+				return "year"
+			case "Time.Month":
+				return "month"
+			case "Time.Day":
+				return "day"
+			case "Time.Hour":
+				return "hour"
+			case "Time.Minute":
+				return "minute"
+			case "Time.Second":
+				return "second"
+			}
+		}
+	case *ssa.Extract:
+		if call, ok := x.Tuple.(*ssa.Call); ok {
+			if obj := calleeObj(&call.Call); obj != nil && obj.Pkg() != nil && obj.Pkg().Path() == "time" {
+				switch funcLocalName(obj) {
+				case "Time.Date":
+					return []string{"year", "month", "day"}[x.Index]
+				case "Time.Clock":
+					return []string{"hour", "minute", "second"}[x.Index]
+				}
+			}
+		}
+	case *ssa.BinOp:
+		k, isK := constInt(x.Y)
+		if !isK {
+			return ""
+		}
+		inner := stripConvAll(x.X)
+		switch {
+		case x.Op == token.REM && k == 100 && c02Component(inner) == "year":
+			return "year%100"
+		case x.Op == token.QUO && k == 3600 && isZone(inner):
+			return "zone-hour"
+		case x.Op == token.REM && k == 60 && isZone(inner):
+			return "seconds part of the zone offset"
+		case x.Op == token.QUO && k == 60 && isZone(inner):
+			return "zone offset in minutes (hours not taken off)"
+		case x.Op == token.REM && k == 3600 && isZone(inner):
+			return "zone offset modulo one hour, in seconds"
+		case x.Op == token.QUO && k == 60:
+			if ib, ok := inner.(*ssa.BinOp); ok && ib.Op == token.REM {
+				if kk, ok := constInt(ib.Y); ok && kk == 3600 && isZone(stripConvAll(ib.X)) {
+					return "zone-minute"
+				}
+			}
+		case x.Op == token.REM && k == 60:
+			if ib, ok := inner.(*ssa.BinOp); ok && ib.Op == token.QUO {
+				if kk, ok := constInt(ib.Y); ok && kk == 60 && isZone(stripConvAll(ib.X)) {
+					return "zone-minute"
+				}
+			}
+		}
+	}
+	return ""
 }
